@@ -277,6 +277,39 @@ theorem race_instance :
     ((exec (init file progs) raceSchedule).loc 0).out ≠ sequentialOut file progs 0 := by
   decide
 
+/-! ### concurrent reads commute -/
+
+/-- **reads commute**: with isolated programs (the positional reads of `DataReaderFile`), what a call
+    has returned so far depends only on HOW MANY of its own steps it has performed – not on the order
+    in which its steps and the other calls' steps were interleaved.  Any two interleavings that give
+    call `c` the same number of steps (in particular any two permutations of one multiset of steps)
+    leave `c` in the same state. -/
+theorem reads_commute (file : Bytes) (progs : List (List Sys)) (h : ∀ p ∈ progs, isolated p = true)
+    (s1 s2 : List Nat) (c : Nat) (hc : s1.count c = s2.count c) :
+    (exec (init file progs) s1).loc c = (exec (init file progs) s2).loc c := by
+  rw [(noninterference file progs h s1 c).1, (noninterference file progs h s2 c).1,
+      filter_eq_replicate, filter_eq_replicate, hc]
+
+/-- in particular every two complete interleavings return the same bytes to every call -/
+theorem schedule_independent (file : Bytes) (progs : List (List Sys)) (h : ∀ p ∈ progs, isolated p = true)
+    (s1 s2 : List Nat) (c : Nat) (h1 : (progs.getD c []).length ≤ s1.count c)
+    (h2 : (progs.getD c []).length ≤ s2.count c) :
+    ((exec (init file progs) s1).loc c).out = ((exec (init file progs) s2).loc c).out := by
+  rw [concurrent_eq_sequential file progs h s1 c h1, concurrent_eq_sequential file progs h s2 c h2]
+
+/-- a second handle that all (large) reads share, used with `seek` then `read` as two separately
+    locked steps (class of seeded regression C13-7): not isolated, and for every file and every two
+    requests there is an interleaving in which call 0 reads from call 1's position -/
+def progSeekReadShared (off n : Nat) : List Sys := [.lseek .shared off, .read .shared n]
+
+theorem seekReadShared_not_isolated (off n : Nat) : isolated (progSeekReadShared off n) = false := rfl
+
+theorem seek_read_shared_race (file : Bytes) (a b n : Nat) :
+    let σ := exec (init file [progSeekReadShared a n, progSeekReadShared b n]) [0, 1, 0, 1]
+    (σ.loc 0).out = [some ((file.drop b).take n)] ∧
+    (σ.loc 1).out = [some ((file.drop (b + ((file.drop b).take n).length)).take n)] := by
+  simp [progSeekReadShared, exec, step, init, sys, resolve, kernel0, local0, Kernel.setFd, Kernel.setOff]
+
 /-! ### index caches under the async mutex -/
 
 open VtModel.Cache in
